@@ -18,6 +18,7 @@ def run(tier, seed):
     out.append(extra.suite_colliding_client_ids(tier, seed))
     out.append(extra.suite_publish_during_churn(tier, seed))
     out.append(extra.suite_peer_gone(tier, seed))
+    out.append(extra.suite_abandoned_big_queries(tier, seed))
     out.append(relay.suite_relay(tier, seed, "sql", n=25 if tier == "quick" else 200, hostile=True, label="hostile-mix", pid="C19"))
     return out
 
